@@ -145,8 +145,18 @@ def run (j : Json) : Except String Json := do
     -- deserialization of a class outside the flat domain: accept / reject, the deserialized
     -- constructor arguments and the invalid set come from `deser` (Sem/Deser.lean) at any depth
     let deep := mode == "deser" && !flat
-    let kw := if deep then deserArgs O opts c.ignoreNone doc fields else kw
-    let invalid := if deep then deserInvalid O opts c.ignoreNone doc fields else invalidFields O c kw fields
+    -- for the deserialization model: the class with every nested class's fields in DEFINITION order
+    let fieldsDef ← match optField j "clsDef" with
+      | none => pure fields
+      | some x => do
+        match (← declOfJson x) with
+        | .struct _ fs _ => pure fs
+        | _ => pure fields
+    let declDef := fun (n : String) => (lookup n fieldsDef)
+    -- top-level fields in signature order, each with its definition-order declaration
+    let fieldsD := fields.map fun nf => (nf.1, (declDef nf.1).getD nf.2)
+    let kw := if deep then deserArgs O opts c.ignoreNone doc fieldsD else kw
+    let invalid := if deep then deserInvalid O opts c.ignoreNone doc fieldsD else invalidFields O c kw fields
     let ss := sites O c kw fields
     let bind := !bindOk c (fields.map (·.1)) kw
     let kind := if bind then "bind" else match ss with
@@ -162,7 +172,9 @@ def run (j : Json) : Except String Json := do
     let cmp := (expected.zip texts).map fun st => siteVsText cls st.1 st.2
     -- phase-one sites of deserialization, in class-definition order, aligned with the real texts
     let defFields := order.filterMap fun n => (lookup n fields).map fun f => (n, f)
-    let p1 := if deep then p1SitesD O opts c.ignoreNone scratch doc (if order.isEmpty then fields else defFields)
+    let defFieldsD := (if order.isEmpty then fields.map (·.1) else order).filterMap fun n =>
+      (lookup n fieldsD).map fun f => (n, f)
+    let p1 := if deep then p1SitesD O opts c.ignoreNone scratch doc defFieldsD
               else p1Sites O scratch doc (if order.isEmpty then fields else defFields)
     let p1Expected := if ff then p1.take 1 else p1
     let p1Pre : Option Text := if ff then none else some cls
@@ -180,7 +192,7 @@ def run (j : Json) : Except String Json := do
                  ("cmp", Json.arr cmp.toArray),
                  ("mode", Json.str mode),
                  ("deep", Json.bool deep),
-                 ("phase1", Json.arr ((if deep then (p1SitesD O opts c.ignoreNone scratch doc fields).map (·.top)
+                 ("phase1", Json.arr ((if deep then (p1SitesD O opts c.ignoreNone scratch doc fieldsD).map (·.top)
                                        else phaseOneInvalid O doc fields).map Json.str).toArray),
                  ("deserCollected", Json.arr ((deserCollected O c doc kw fields).map Json.str).toArray)]
     let rd := match msg with
